@@ -1,0 +1,12 @@
+//go:build verif
+
+// Contracts for package skiplist, read by the govc verifier (/verif). Comments only.
+package skiplist
+
+// cmpv(c, a, b) is the value comparator object c returns for (a, b). A comparator has no state.
+
+//@ spec func cmpv(c Ref, a any, b any) Int
+
+//@ iface Comparator.Compare
+//@   ensures r0 == cmpv(this, a, b)
+//@   pure
